@@ -9,7 +9,7 @@ import (
 )
 
 // pesView queries every getter of a decoded header; in = the caller's buffer, orig = snapshot before the call
-func pesView(h pes.PESHeader, in, orig []byte) Val {
+func codecPesView(h pes.PESHeader, in, orig []byte) Val {
 	printed := int64(1)
 	if f, ok := h.(interface{ Format() string }); ok {
 		_ = f.Format()
@@ -23,16 +23,16 @@ func pesView(h pes.PESHeader, in, orig []byte) Val {
 		VBool(h.HasPTS()), VU(h.PTS()), VBool(h.HasDTS()), VU(h.DTS()), VB(data), VI(unchanged), VI(printed))
 }
 
-func newPes(in []byte) Val {
+func codecNewPes(in []byte) Val {
 	orig := append([]byte{}, in...)
 	h, err := pes.NewPESHeader(in)
 	if err != nil {
 		return VErr(errCode(err))
 	}
-	return VOk(pesView(h, in, orig))
+	return VOk(codecPesView(h, in, orig))
 }
 
-func pesPktOf(b []byte) (*packet.Packet, bool) {
+func codecPktOf(b []byte) (*packet.Packet, bool) {
 	if len(b) != packet.PacketSize {
 		return nil, false
 	}
@@ -43,22 +43,22 @@ func pesPktOf(b []byte) (*packet.Packet, bool) {
 
 func init() {
 	register("pes.time", func(a []Val) Val {
-		return readOnly(a[0].B, func(b []byte) Val { return VOk(VU(pes.ExtractTime(b))) })
+		return codecReadOnly(a[0].B, func(b []byte) Val { return VOk(VU(pes.ExtractTime(b))) })
 	})
 	register("pts.rt", func(a []Val) Val {
 		b := append([]byte{}, a[0].B...)
 		gots.InsertPTS(b, a[1].U())
 		return VOk(VL(VB(b),
-			protect(func() Val { return VOk(VU(gots.ExtractTime(b))) }),
-			protect(func() Val { return VOk(VU(pes.ExtractTime(b))) })))
+			codecProtect(func() Val { return VOk(VU(gots.ExtractTime(b))) }),
+			codecProtect(func() Val { return VOk(VU(pes.ExtractTime(b))) })))
 	})
 	register("pes.new", func(a []Val) Val {
 		in := append([]byte{}, a[0].B...) // cap = len (DESIGN section 3)
 		in = in[:len(in):len(in)]
-		return newPes(in)
+		return codecNewPes(in)
 	})
 	register("pes.pkt", func(a []Val) Val {
-		p, ok := pesPktOf(a[0].B)
+		p, ok := codecPktOf(a[0].B)
 		if !ok {
 			return VBad()
 		}
@@ -72,7 +72,7 @@ func init() {
 		return VOk(VB(hb))
 	})
 	register("pes.aligned", func(a []Val) Val {
-		p, ok := pesPktOf(a[0].B)
+		p, ok := codecPktOf(a[0].B)
 		if !ok {
 			return VBad()
 		}
@@ -86,27 +86,27 @@ func init() {
 		b := append([]byte{}, a[0].B...)
 		gots.InsertPTS(b[9:], a[1].U())
 		gots.InsertPTS(b[14:], a[2].U())
-		return VOk(VL(VB(b), protect(func() Val { return newPes(b) })))
+		return VOk(VL(VB(b), codecProtect(func() Val { return codecNewPes(b) })))
 	})
 	register("pes.withpes", func(a []Val) Val {
-		p, ok := pesPktOf(a[0].B)
+		p, ok := codecPktOf(a[0].B)
 		if !ok {
 			return VBad()
 		}
 		packet.WithPES(p, a[1].U())
-		hdr := protect(func() Val {
+		hdr := codecProtect(func() Val {
 			hb, err := packet.PESHeader(p)
 			if err != nil {
 				return VErr(errCode(err))
 			}
 			return VOk(VB(hb))
 		})
-		dec := protect(func() Val {
+		dec := codecProtect(func() Val {
 			pay, err := packet.Payload(p)
 			if err != nil {
 				return VErr(errCode(err))
 			}
-			return newPes(append([]byte{}, pay...))
+			return codecNewPes(append([]byte{}, pay...))
 		})
 		return VOk(VL(VB(p[:]), hdr, dec))
 	})
